@@ -62,9 +62,17 @@ def e2e_prog(seed, i):
         op.methods.append(spec.Method("t%d" % k, ("ref", None), [("e", t)], t))
         op.methods.append(spec.Method("o%d" % k, ("ref", None), [("e", ("opt", t, "std"))], ("opt", t, "std")))
         op.methods.append(spec.Method("r%d" % k, ("ref", None), [("e", t), ("n", ("prim", "u8"))], ("result", t, ("enum", enums[-1].name), "std")))
+    # a struct whose only field is the enum, by value in both directions: it crosses as the bare scalar, which the binding has to
+    # narrow as a *signed* 32-bit value on the way back (seed C11-i)
+    wrappers = []
+    for k, en in enumerate(enums[:3]):
+        sw = spec.Struct("Sw%d" % k, [("only", ("enum", en.name))])
+        wrappers.append(sw)
+        op.methods.append(spec.Method("w%d" % k, ("ref", None), [("e", ("enum", en.name))], ("struct", sw.name)))
+        op.methods.append(spec.Method("ww%d" % k, ("ref", None), [("v", ("struct", sw.name))], ("struct", sw.name)))
     op.methods.append(spec.Method("s", ("ref", None), [("v", ("struct", "Se"))], ("struct", "Se")))
     op.methods.append(spec.Method("so", ("ref", None), [("v", ("struct", "Se"))], ("opt", ("struct", "Se"), "std")))
-    mod.items = enums + [st, op]
+    mod.items = enums + [st] + wrappers + [op]
     for t_ in mod.items:
         for m_ in t_.methods:
             m_.owner = t_
